@@ -2,6 +2,7 @@ package main
 
 import (
 	"fmt"
+	"go/token"
 	"go/types"
 	"reflect"
 	"sort"
@@ -357,7 +358,7 @@ func runC14(c *Ctx) {
 	c.sites += nEnc
 
 	// ------------------------------------------------------------ E5
-	c.Rule("C14.E5", "GATE+CONFINED", "in package rlp every make() whose length derives from a decoded size is dominated by a successful (*Stream).Kind(); Kind/readKind compare the size with the remaining input and fail with ErrValueTooLarge; every stream created without an input limit outside rlp is a tabled site")
+	c.Rule("C14.E5", "GATE+CONFINED", "in package rlp every make() whose length derives from a decoded size is dominated by a successful (*Stream).Kind() and has one-byte elements; no reflective allocation (reflect.MakeSlice …) is sized by a decoded length; slices of the stream's scratch buffer are never returned or stored; Kind/readKind compare the size with the remaining input and fail with ErrValueTooLarge; every stream created without an input limit outside rlp is a tabled site")
 	c.Min(4)
 	c14E5(c, w)
 }
@@ -466,6 +467,137 @@ func c14E5(c *Ctx, w *World) {
 			}
 		}
 	}
+	// allocations sized by a decoded length are byte-for-byte: one input byte never buys more than one byte of memory
+	list := w.FuncObj("rlp", "Stream", "List")
+	decodedSize := func(v ssa.Value) bool {
+		found := false
+		backward(v, func(x ssa.Value) bool {
+			if cc, ok := x.(*ssa.Call); ok {
+				if sameFunc(calleeObj(cc), kind) || sameFunc(calleeObj(cc), list) {
+					found = true
+				}
+				return false
+			}
+			if f, _ := loadedField(x); f != nil && f.Name() == "size" && fieldOwner(w, f) == "Stream" {
+				found = true
+				return false
+			}
+			return true
+		})
+		return found
+	}
+	nAlloc := 0
+	for _, fn := range w.FuncsIn("rlp") {
+		f := w.fileOf(fn.Pos())
+		if strings.HasSuffix(f, "_test.go") || !(strings.HasSuffix(f, "rlp/decode.go") || strings.HasSuffix(f, "rlp/raw.go")) {
+			continue
+		}
+		for _, b := range fn.Blocks {
+			for _, in := range b.Instrs {
+				switch x := in.(type) {
+				case *ssa.MakeSlice:
+					if !decodedSize(x.Len) && !decodedSize(x.Cap) {
+						continue
+					}
+					nAlloc++
+					c.sites++
+					el := x.Type().Underlying().(*types.Slice).Elem()
+					bt, isBasic := el.Underlying().(*types.Basic)
+					byteSized := isBasic && (bt.Kind() == types.Uint8 || bt.Kind() == types.Int8 || bt.Kind() == types.Bool)
+					c.Check(fname(fn)+"#decoded-size-alloc-is-bytes", x.Pos(), byteSized, ifelse(byteSized, "the allocation sized by a decoded length has one-byte elements", "an allocation of "+el.String()+" elements is sized by a length announced in the input: each announced byte buys a whole element of memory before a single element was decoded"))
+				case ssa.CallInstruction:
+					o := calleeObj(x)
+					if o == nil || o.Pkg() == nil || o.Pkg().Path() != "reflect" {
+						continue
+					}
+					switch o.Name() {
+					case "MakeSlice", "MakeMapWithSize", "MakeChan", "ArrayOf":
+					default:
+						continue
+					}
+					nAlloc++
+					c.sites++
+					bad := false
+					for _, a := range callArgs(x)[1:] {
+						if decodedSize(a) {
+							bad = true
+						}
+					}
+					c.Check(fmt.Sprintf("%s#reflect.%s@%s-not-sized-by-input", fname(fn), o.Name(), siteOrdinal(fn, x, "")), x.Pos(), !bad, ifelse(!bad, "the reflective allocation is sized by constants / the slice's own capacity", "a reflective allocation is sized by a length announced in the input: a list header announcing N bytes allocates N elements (N × element size bytes) before any element was decoded and validated"))
+				}
+			}
+		}
+	}
+	if nAlloc < 3 {
+		c.Undecided("rlp#allocation-sites", 0, fmt.Sprintf("only %d allocation sites found in the decoder (expected the byte-string allocation and the reflective slice growth)", nAlloc))
+	}
+	// the stream's scratch buffers never leave it
+	for _, bufName := range []string{"uintbuf"} {
+		bufF := w.Field("rlp", "Stream", bufName)
+		nUse, leaks := 0, 0
+		var leakPos token.Pos
+		for _, fn := range w.FuncsIn("rlp") {
+			if strings.HasSuffix(w.fileOf(fn.Pos()), "_test.go") {
+				continue
+			}
+			for _, b := range fn.Blocks {
+				for _, in := range b.Instrs {
+					u, ok := in.(*ssa.UnOp)
+					if !ok || u.Op != token.MUL {
+						continue
+					}
+					if f, _ := loadedField(u); f != bufF {
+						continue
+					}
+					nUse++
+					// forward: the loaded slice header and slices of it
+					work := []ssa.Value{u}
+					seen := map[ssa.Value]bool{}
+					for len(work) > 0 {
+						v := work[0]
+						work = work[1:]
+						if seen[v] {
+							continue
+						}
+						seen[v] = true
+						for _, r := range *v.Referrers() {
+							switch y := r.(type) {
+							case *ssa.Slice:
+								work = append(work, y)
+							case *ssa.Phi:
+								work = append(work, y)
+							case *ssa.ChangeType:
+								work = append(work, y)
+							case *ssa.MakeInterface:
+								work = append(work, y)
+							case *ssa.Return:
+								leaks++
+								leakPos = y.Pos()
+							case *ssa.Store:
+								if y.Val == v {
+									if fa, isFA := y.Addr.(*ssa.FieldAddr); isFA && fieldOfAddr(fa) == bufF {
+										continue
+									}
+									leaks++
+									leakPos = y.Pos()
+								}
+							case *ssa.MapUpdate, *ssa.Send:
+								leaks++
+								leakPos = r.Pos()
+							}
+						}
+					}
+				}
+			}
+		}
+		c.sites += nUse
+		if nUse == 0 {
+			c.Undecided("rlp.Stream."+bufName+"#confined", 0, "no use of the scratch buffer found")
+			continue
+		}
+		c.Check("rlp.Stream."+bufName+"#confined", leakPos, leaks == 0, ifelse(leaks == 0, fmt.Sprintf("%d loads of the scratch buffer: it is indexed, passed to readers and converted to integers, never returned or stored", nUse), "a slice of the stream's scratch buffer is returned or stored: the decoded value aliases memory the stream overwrites when it reads the next header or integer, so the value changes after it was decoded"))
+	}
+
 	// Kind enforces the input limit
 	kf := w.Fn("rlp", "Stream", "Kind")
 	c.sawFunc(fname(kf))
